@@ -635,6 +635,9 @@ def c17_cpu_count():
                 return
             if len(samples) < 3:
                 samples.append({"only_physical_cores": False, "decisions": list(p.decisions)})
+            if not isinstance(out, (int, z3.ArithRef)) or isinstance(out, bool):
+                S.obligation(p, True, f"cpu_count() returned {out!r}, not an integer")
+                return
             S.obligation(p, out != agg, "cpu_count() != max(1, min(os, affinity, ceil(quota/period), override))")
 
         def body_physical(p):
@@ -655,6 +658,9 @@ def c17_cpu_count():
                 phys_found, phys_val = z3.BoolVal(False), z3.IntVal(0)
             else:
                 phys_found, phys_val = z3.BoolVal(True), V["cache_val"]
+            if not isinstance(out, (int, z3.ArithRef)) or isinstance(out, bool):
+                S.obligation(p, True, f"cpu_count(only_physical_cores=True) returned {out!r}, not an integer")
+                return
             want = z3.If(limited, z3.If(user < 1, 1, user), z3.If(phys_found, phys_val, agg))
             S.obligation(p, out != want, "cpu_count(only_physical_cores=True) differs from the three-way case split")
             warned = ev.count("warn")
@@ -671,6 +677,9 @@ def c17_cpu_count():
                 out2 = it2.call_function(funcs["cpu_count"], [], {"only_physical_cores": True})
             except SymRaise as r:
                 S.obligation(p, True, f"second call raised {r.exc}")
+                return
+            if not isinstance(out2, (int, z3.ArithRef)) or isinstance(out2, bool):
+                S.obligation(p, True, f"second call returned {out2!r}, not an integer")
                 return
             S.obligation(p, out2 != out, "second call returns a different value")
             S.obligation(p, ev2.count("warn") != 0, "second call warns again")
